@@ -222,14 +222,14 @@ pub fn run(ctx: &Ctx, evidence: Option<&PathBuf>) -> i32 {
     let take_interned = match ctx.scale {
         Scale::Full => interned_names.len(),
         Scale::San => 40,
-        Scale::Miri => 6,
+        Scale::Miri => 3,
     };
     for n in interned_names.iter().take(take_interned) {
         dom.extend(case_variants(n, &mut rng));
     }
     // all strings of length <= 3 over a small alphabet incl. non-ASCII look-alikes
     let alpha = ["a", "A", "b", "_", "é", "\u{212A}", "ß"];
-    let alpha_n = if ctx.scale == Scale::Miri { 4 } else { 7 };
+    let alpha_n = if ctx.scale == Scale::Miri { 3 } else { 7 };
     let mut small: Vec<String> = Vec::new();
     for x in &alpha[..alpha_n] {
         small.push((*x).to_string());
@@ -244,7 +244,7 @@ pub fn run(ctx: &Ctx, evidence: Option<&PathBuf>) -> i32 {
     }
     dom.extend(small.iter().cloned());
     // lengths around the 16-byte hashing chunk: one-position, case-only, length-only, non-ASCII differences
-    let lens: Vec<usize> = if ctx.scale == Scale::Miri { vec![15, 16, 17] } else { (14..=18).chain(30..=34).chain([47, 48, 49]).collect() };
+    let lens: Vec<usize> = if ctx.scale == Scale::Miri { vec![16] } else { (14..=18).chain(30..=34).chain([47, 48, 49]).collect() };
     for &l in &lens {
         let base: String = (0..l).map(|i| (b'A' + (i % 26) as u8) as char).collect();
         dom.push(base.clone());
@@ -358,7 +358,7 @@ pub fn run(ctx: &Ctx, evidence: Option<&PathBuf>) -> i32 {
         }
         c.l.add("triples_checked", (small_idx.len() * small_idx.len()) as u64);
     });
-    let nt = ctx.size(2_000, 100_000);
+    let nt = ctx.size3(2_000, 100_000, 1);
     ctx.run_cases("triples-random", nt, |c| {
         for _ in 0..500 {
             let (a, b, d) = (c.rng.pick(&entries), c.rng.pick(&entries), c.rng.pick(&entries));
@@ -374,7 +374,7 @@ pub fn run(ctx: &Ctx, evidence: Option<&PathBuf>) -> i32 {
     });
 
     // ---- sorting + map lookups by any spelling -----------------------------------------------------------------
-    ctx.run_cases("maps", ctx.size(40, 400), |c| {
+    ctx.run_cases("maps", ctx.size3(40, 400, 1), |c| {
         // one key per equivalence class
         let mut classes: BTreeMap<String, Vec<&Entry>> = BTreeMap::new();
         for e in &entries {
@@ -425,7 +425,7 @@ pub fn run(ctx: &Ctx, evidence: Option<&PathBuf>) -> i32 {
     });
 
     // ---- HTTP header names ----------------------------------------------------------------------------------------
-    ctx.run_cases("header-names", ctx.size(4_000, 200_000), |c| {
+    ctx.run_cases("header-names", ctx.size3(4_000, 200_000, 12), |c| {
         let std_names = ["accept", "user-agent", "x-forwarded-for", "content-length", "sec-ch-ua-full-version-list", "x-request-id", "dnt", "cookie", "a", "-", "_", "x_y-z"];
         let raw: Vec<u8> = if c.index < std_names.len() as u64 {
             std_names[c.index as usize].as_bytes().to_vec()
